@@ -36,7 +36,19 @@
 (* Time is abstract: the child "clock" is the time at which it will have   *)
 (* finished the test cases executed so far; process start and pickling     *)
 (* take a positive amount of time, therefore the child answers in time iff *)
-(* clock < budget.                                                         *)
+(* clock < budget.  A terminating test case takes Dur(p) (its "slow"       *)
+(* statements sleep in uninstrumented code); it is a timeout exactly when  *)
+(* Dur(p) reaches TestBudget(p, m, per) of the executor that runs it.  The *)
+(* executor inside the child is built from the two settings that Setup     *)
+(* puts into the argument tuple of the process (ChildArgs): the budget of  *)
+(* a test case in the child is TestBudget(p, ChildArgs.m, ChildArgs.per)   *)
+(* and has to be the budget of the in-process executor (ChildBudgetAgree). *)
+(*                                                                         *)
+(* Variant (what-if switches, "ascoded" is the code):                      *)
+(*   "swapargs"     the two timeout settings arrive swapped in the child   *)
+(*   "relinkbound"  _fix_assertion_trace re-adds only positions that bind  *)
+(*   "sendoutside"  the results are pickled after the tracer was stopped:  *)
+(*                  instrumented pickling hooks kill the child             *)
 (***************************************************************************)
 EXTENDS SubprocessExecOps, TLC
 
@@ -45,7 +57,8 @@ CONSTANTS Batches,    \* set of batches; a batch is the sequence of test cases o
           M, Per,     \* maximum timeout, time per statement (abstract units)
           Faults,     \* subset of {"crash", "raise", "slow"}
           MaxFaults,  \* bound on the number of fault events
-          Pickle      \* "ascoded": unpicklable exceptions are dropped | "faithful": sent in a picklable form
+          Pickle,     \* "ascoded": unpicklable exceptions are dropped | "faithful": sent in a picklable form
+          Variant     \* "ascoded" | "swapargs" | "relinkbound" | "sendoutside" (what-if)
 
 VARIABLES tests,    \* the batch given to execute_multiple
           obs,      \* the attached remote observer
@@ -70,6 +83,12 @@ Job == Head(jobs)
 Whole == [k \in 1..N |-> k]
 Singles(job) == [k \in 1..Len(job) |-> <<job[k]>>]
 NoMsg == [res |-> <<>>, newb |-> <<>>]
+\* (maximum_test_execution_timeout, test_execution_time_per_statement) as they arrive in
+\* _execute_test_cases_in_subprocess
+ChildArgs == IF Variant = "swapargs" THEN [m |-> Per, per |-> M] ELSE [m |-> M, per |-> Per]
+ChildBudget(p) == TestBudget(p, ChildArgs.m, ChildArgs.per)
+\* _create_new_reference_bindings: None when the assertion trace is empty
+NoBind == [some |-> FALSE, b |-> <<>>]
 ChildAlive == cpc \in {"run", "send", "closing"}
 CanFault(f) == f \in Faults /\ nfault < MaxFaults
 
@@ -118,8 +137,10 @@ Recv ==
 Deliver(k) ==
   LET r == msg.res[k]
       p == tests[Job[k]]
-  IN IF msg.newb[k] = <<>> THEN r
-     ELSE [r EXCEPT !.atr = Relink(r.atr, Bind(p), msg.newb[k])]
+  IN IF ~msg.newb[k].some THEN r
+     ELSE IF Variant = "relinkbound"
+     THEN [r EXCEPT !.atr = RelinkBoundOnly(r.atr, Bind(p), msg.newb[k].b)]
+     ELSE [r EXCEPT !.atr = Relink(r.atr, Bind(p), msg.newb[k].b)]
 Join ==
   /\ ppc = "join"
   /\ cpc' = IF cpc \in {"exited", "dead"} THEN cpc ELSE "killed"
@@ -159,8 +180,8 @@ ChildRun ==
         /\ IF HasDie(p)
            THEN /\ cpc' = "dead" /\ pipe' = IF pipe = "open" THEN "eof" ELSE pipe
                 /\ UNCHANGED <<ck, cres, clock, cst>>
-           ELSE /\ cres' = Append(cres, ExecResultAt(p, obs, cst))
-                /\ clock' = clock + Cost(p, M, Per)
+           ELSE /\ cres' = Append(cres, ExecResultAt(p, obs, cst, ChildArgs.m, ChildArgs.per))
+                /\ clock' = clock + Cost(p, ChildArgs.m, ChildArgs.per)
                 /\ cst' = cst + CntIn(p)
                 /\ ck' = ck + 1
                 /\ UNCHANGED <<cpc, pipe>>
@@ -176,11 +197,15 @@ ChildFix ==
 ChildSend ==
   /\ cpc = "send"
   /\ clock < Budget(Job, tests, M, Per) \/ ppc # "poll"
-  /\ IF pipe = "open" /\ ppc = "poll"
+  /\ IF Variant = "sendoutside" /\ \E k \in 1..Len(cres) : cres[k].exct \in Hooked
+     THEN \* TracingAbortedException (a BaseException) out of the pickler: exit code 1, nothing sent
+          /\ cpc' = "dead" /\ pipe' = (IF pipe = "open" THEN "eof" ELSE pipe) /\ UNCHANGED msg
+     ELSE IF pipe = "open" /\ ppc = "poll"
      THEN /\ pipe' = "data"
           /\ msg' = [res |-> cres,
                      newb |-> [k \in 1..Len(cres) |->
-                                 IF cres[k].atr # {} THEN Bind(tests[Job[k]]) ELSE <<>>]]
+                                 IF cres[k].atr # {}
+                                 THEN [some |-> TRUE, b |-> Bind(tests[Job[k]])] ELSE NoBind]]
           /\ cpc' = "closing"
      ELSE /\ cpc' = "exited"            \* BrokenPipe, suppressed
           /\ UNCHANGED <<pipe, msg>>
@@ -219,7 +244,7 @@ TypeOK ==
 
 (* the abstract executor: test i of a batch runs in the process that ran tests 1..i-1 *)
 StateBefore(i) == CntUpTo(tests, i - 1)
-Expected(i) == ExecResultAt(tests[i], obs, StateBefore(i))
+Expected(i) == ExecResultAt(tests[i], obs, StateBefore(i), M, Per)
 Delivered(i) == ~results[i].none
 Undisturbed == nfault = 0
 
@@ -237,6 +262,9 @@ LinesAgree        == \A i \in 1..N : Relevant(i) => results[i].items = Expected(
 AssertionAgree    == \A i \in 1..N : Relevant(i) => results[i].atr = Expected(i).atr
 VerificationAgree == \A i \in 1..N : Relevant(i) => results[i].vtr = Expected(i).vtr
 
+\* the executor in the child gives every test case the budget of the in-process executor
+ChildBudgetAgree == \A i \in 1..N : ChildBudget(tests[i]) = TestBudget(tests[i], M, Per)
+
 (* ---- protocol properties ------------------------------------------------- *)
 \* under faults a result is the abstract one or the timeout result, never something else
 SafeDegradation == \A i \in 1..N : Delivered(i) => results[i] \in {Expected(i), TimeoutRes}
@@ -250,9 +278,15 @@ Returns == <>(ppc = "done")
 
 (* ---- batches used by the design configurations --------------------------- *)
 DP(ops) == Uniform(ops, "gen")
+\* (design configurations: M = 4, Per = 2, SlowDur = 3 - one statement: budget 2, more: budget 4)
 DesignPrograms == {DP(<<"recT">>), DP(<<"recF", "exc", "recT">>), DP(<<"obj", "mut">>),
                    DP(<<"spin">>), DP(<<"recT", "nap">>), DP(<<"recT", "die">>),
-                   <<St("recT", "fail"), St("excS", "xwrong"), St("lit", "err")>>}
+                   <<St("recT", "fail"), St("excS", "xwrong"), St("lit", "err")>>,
+                   DP(<<"recT", "slow">>),       \* slower than Per, inside its budget
+                   DP(<<"slow">>),               \* terminates, but only after its budget
+                   \* hooked object, mutated by an expression statement; the last statement is a
+                   \* raising expression statement whose exception has instrumented pickling hooks
+                   <<St("objR", "gen"), Unb(St("mut", "gen")), Unb(St("excR", "gen"))>>}
 UnpicklablePrograms == {DP(<<"recT", "excU">>), DP(<<"excU">>)}
 HiddenPrograms == {DP(<<"cnt">>), DP(<<"cnt", "nap">>), DP(<<"recT">>)}
 SeqsUpTo(S, n) == UNION {[1..k -> S] : k \in 1..n}
